@@ -78,7 +78,13 @@ type c01state struct {
 }
 
 // see runs the shared handler-side oracle: body tag and metadata tag agree, and neither changes while the handler runs.
-func (s *c01state) see(kind string, body interface{}, meta func(string) []byte) (string, string) {
+func (s *c01state) see(kind string, body interface{}, meta func(string) []byte, method func() string) (string, string) {
+	m0 := method()
+	defer func() {
+		if m1 := method(); m1 != m0 {
+			vsched.Failf("%s handler (%s): the service method of its request changed from %q to %q while the handler was running", kind, s.who, m0, m1)
+		}
+	}()
 	tag, pad := s.bk.get(body)
 	mt := string(meta("tag"))
 	if mt != tag {
@@ -109,51 +115,51 @@ func (s *c01state) register(p erpc.Peer) (call, push string) {
 	switch s.bk.codec + ":" + fmt.Sprintf("%T", s.bk.newRes()) {
 	case "json:*scen.Msg", "xml:*scen.Msg", "form:*scen.Msg":
 		call = p.RouteCallFunc(func(ctx erpc.CallCtx, arg *Msg) (*Msg, *erpc.Status) {
-			t, pd := s.see("call", arg, ctx.PeekMeta)
+			t, pd := s.see("call", arg, ctx.PeekMeta, ctx.ServiceMethod)
 			s.handled = append(s.handled, t)
 			ctx.SetMeta("tag", t)
 			return &Msg{Tag: t, Pad: "r:" + pd}, nil
 		})
 		push = p.RoutePushFunc(func(ctx erpc.PushCtx, arg *Msg) *erpc.Status {
-			t, _ := s.see("push", arg, ctx.PeekMeta)
+			t, _ := s.see("push", arg, ctx.PeekMeta, ctx.ServiceMethod)
 			s.pushed = append(s.pushed, t)
 			return nil
 		})
 	case "plain:*string":
 		call = p.RouteCallFunc(func(ctx erpc.CallCtx, arg *string) (*string, *erpc.Status) {
-			t, pd := s.see("call", arg, ctx.PeekMeta)
+			t, pd := s.see("call", arg, ctx.PeekMeta, ctx.ServiceMethod)
 			s.handled = append(s.handled, t)
 			ctx.SetMeta("tag", t)
 			r := t + "|r:" + pd
 			return &r, nil
 		})
 		push = p.RoutePushFunc(func(ctx erpc.PushCtx, arg *string) *erpc.Status {
-			t, _ := s.see("push", arg, ctx.PeekMeta)
+			t, _ := s.see("push", arg, ctx.PeekMeta, ctx.ServiceMethod)
 			s.pushed = append(s.pushed, t)
 			return nil
 		})
 	case "plain:*scen.NStr":
 		call = p.RouteCallFunc(func(ctx erpc.CallCtx, arg *NStr) (*NStr, *erpc.Status) {
-			t, pd := s.see("call", arg, ctx.PeekMeta)
+			t, pd := s.see("call", arg, ctx.PeekMeta, ctx.ServiceMethod)
 			s.handled = append(s.handled, t)
 			ctx.SetMeta("tag", t)
 			r := NStr(t + "|r:" + pd)
 			return &r, nil
 		})
 		push = p.RoutePushFunc(func(ctx erpc.PushCtx, arg *NStr) *erpc.Status {
-			t, _ := s.see("push", arg, ctx.PeekMeta)
+			t, _ := s.see("push", arg, ctx.PeekMeta, ctx.ServiceMethod)
 			s.pushed = append(s.pushed, t)
 			return nil
 		})
 	case "protobuf:*secure.Encrypt":
 		call = p.RouteCallFunc(func(ctx erpc.CallCtx, arg *secure.Encrypt) (*secure.Encrypt, *erpc.Status) {
-			t, pd := s.see("call", arg, ctx.PeekMeta)
+			t, pd := s.see("call", arg, ctx.PeekMeta, ctx.ServiceMethod)
 			s.handled = append(s.handled, t)
 			ctx.SetMeta("tag", t)
 			return &secure.Encrypt{Cipherversion: t, Ciphertext: "r:" + pd}, nil
 		})
 		push = p.RoutePushFunc(func(ctx erpc.PushCtx, arg *secure.Encrypt) *erpc.Status {
-			t, _ := s.see("push", arg, ctx.PeekMeta)
+			t, _ := s.see("push", arg, ctx.PeekMeta, ctx.ServiceMethod)
 			s.pushed = append(s.pushed, t)
 			return nil
 		})
